@@ -281,8 +281,80 @@ func lengthFields(b []byte) (lens []span, plens []int, flags []int, types []int)
 	return
 }
 
+// cutAttr removes the tail of one attribute value of an UPDATE, at a structural boundary when the attribute has
+// one (MP_REACH: after AFI/SAFI, after the next hop length, after the next hop, after the reserved octet; AS_PATH:
+// after a segment header), and rewrites the attribute length, the total path attribute length and the header length.
+func cutAttr(rng *rand.Rand, b []byte) ([]byte, bool) {
+	if len(b) < 23 || b[18] != wire.TypeUpdate {
+		return nil, false
+	}
+	wl := int(binary.BigEndian.Uint16(b[19:]))
+	ao := 21 + wl
+	if ao+2 > len(b) {
+		return nil, false
+	}
+	al := int(binary.BigEndian.Uint16(b[ao:]))
+	end := ao + 2 + al
+	if end > len(b) {
+		return nil, false
+	}
+	type at struct{ p, h, l int }
+	var attrs []at
+	for p := ao + 2; p+3 <= end; {
+		var l, h int
+		if b[p]&wire.FlagExtLen != 0 {
+			if p+4 > end {
+				break
+			}
+			l, h = int(binary.BigEndian.Uint16(b[p+2:])), 4
+		} else {
+			l, h = int(b[p+2]), 3
+		}
+		if p+h+l > end {
+			break
+		}
+		if l > 0 {
+			attrs = append(attrs, at{p, h, l})
+		}
+		p += h + l
+	}
+	if len(attrs) == 0 {
+		return nil, false
+	}
+	a := attrs[rng.IntN(len(attrs))]
+	v := a.p + a.h
+	cands := []int{0, 1, a.l - 1, rng.IntN(a.l)}
+	switch b[a.p+1] {
+	case wire.AttrMPReach:
+		cands = append(cands, 3, 4)
+		if a.l >= 4 {
+			nh := int(b[v+3])
+			cands = append(cands, 4+nh, 4+nh, 4+nh+1, 4+nh+1, 4+nh-1)
+		}
+	case wire.AttrMPUnreach:
+		cands = append(cands, 2, 3, 4)
+	case wire.AttrASPath, wire.AttrAS4Path:
+		cands = append(cands, 1, 2, 3)
+	}
+	nl := cands[rng.IntN(len(cands))]
+	if nl < 0 || nl >= a.l {
+		nl = rng.IntN(a.l)
+	}
+	cut := a.l - nl
+	out := append([]byte(nil), b[:v+nl]...)
+	out = append(out, b[v+a.l:]...)
+	if a.h == 4 {
+		binary.BigEndian.PutUint16(out[a.p+2:], uint16(nl))
+	} else {
+		out[a.p+2] = byte(nl)
+	}
+	binary.BigEndian.PutUint16(out[ao:], uint16(al-cut))
+	fixLen(out)
+	return out, true
+}
+
 // Kinds lists the mutation kinds Mutate can apply.
-var Kinds = []string{"hdr-length", "truncate", "bitflip", "length-field", "flag-flip", "prefix-len", "type-swap", "splice", "random-tail", "insert", "extend", "none"}
+var Kinds = []string{"attr-cut", "hdr-length", "truncate", "bitflip", "length-field", "flag-flip", "prefix-len", "type-swap", "splice", "random-tail", "insert", "extend", "none"}
 
 // Mutate applies one typed mutation to a copy of raw (other is a second corpus message, used for
 // splices) and reports its kind. Results are at most 4096 bytes.
@@ -292,6 +364,13 @@ func Mutate(rng *rand.Rand, raw, other []byte) ([]byte, string) {
 	kind := Kinds[rng.IntN(len(Kinds))]
 	refit := rng.IntN(10) < 7
 	switch kind {
+	case "attr-cut":
+		// shorten one attribute's value and keep every enclosing length consistent (attribute length, total path
+		// attribute length, header length): the framing stays valid, the attribute's content ends early
+		if c, ok := cutAttr(rng, b); ok {
+			return c, kind
+		}
+		return b, "none"
 	case "hdr-length":
 		vals := []int{0, 1, 18, 19, 20, len(b) - 1, len(b) + 1, 4096, 4097, 0xffff, rng.IntN(0x10000)}
 		v := vals[rng.IntN(len(vals))]
